@@ -1,0 +1,30 @@
+//go:build verif
+
+package getsvc
+
+// Machine-checked contracts (govc, see /verif/DESIGN.md). Comment-only file.
+
+//@ fileprops C23
+
+// Which children of a split object a payload range touches, and where in them. The function
+// takes the children as an arbitrary iterator (index, size); what is proved is the inductive
+// step - the body of its range-over-func loop (requiredChildrenIter$1), called once per child
+// in order, for every state reachable so far:
+//   * the running total grows by the child's size (no wrap, for totals below 2^64);
+//   * children that end at or before the range start are skipped without a choice being made;
+//   * the first child is chosen once: it is the child in which the range starts, and the
+//     offset recorded is the range start minus the bytes before that child;
+//   * the iteration stops exactly at the child that covers the range end; the right bound
+//     recorded is the range end minus the bytes before that child.
+
+//@ func requiredChildrenIter$1
+//@   opt wide=80
+//@   valid wide(leftBound) <= wide(rightBound) && wide(deref(bytesSeen)) + wide(p1) < 18446744073709551616
+//@   valid p0 >= 0 && (deref(firstChildIndex) == -1 ==> wide(deref(bytesSeen)) <= wide(leftBound)) && wide(deref(bytesSeen)) <= wide(rightBound)
+//@   ensures [running_total_grows_by_the_child_size] wide(deref(bytesSeen)) == wide(old(deref(bytesSeen))) + wide(p1)
+//@   ensures [children_before_the_range_are_skipped] wide(deref(bytesSeen)) <= wide(leftBound) ==> result && deref(firstChildIndex) == old(deref(firstChildIndex))
+//@   ensures [first_child_is_where_the_range_starts] old(deref(firstChildIndex)) == -1 && wide(deref(bytesSeen)) > wide(leftBound) ==> deref(firstChildIndex) == p0 && wide(deref(firstChildOffset)) + wide(old(deref(bytesSeen))) == wide(leftBound)
+//@   ensures [first_child_is_chosen_once] old(deref(firstChildIndex)) != -1 ==> deref(firstChildIndex) == old(deref(firstChildIndex)) && deref(firstChildOffset) == old(deref(firstChildOffset))
+//@   ensures [stops_exactly_at_the_child_covering_the_range_end] !result == (wide(deref(bytesSeen)) > wide(leftBound) && wide(rightBound) <= wide(deref(bytesSeen)))
+//@   ensures [right_bound_is_the_range_end_inside_the_last_child] !result ==> deref(lastChildIndex) == p0 && wide(deref(lastChildRightBound)) + wide(old(deref(bytesSeen))) == wide(rightBound)
+//@   ensures [invariant_kept] (deref(firstChildIndex) == -1 ==> wide(deref(bytesSeen)) <= wide(leftBound)) && (result ==> wide(deref(bytesSeen)) <= wide(rightBound))
